@@ -66,8 +66,9 @@ def request_under_dispatcher_lock():
     if ok:
         body = [_norm(s) for s in st[0].body]
         ok = (any(b.startswith('ifhandler:returnhandler(conn,specifier,data)') for b in body)
-              and any(b.replace('(', '').replace(')', '') == "ifaction==IDENTREQUEST:action,specifier,data='_ident',None,None"
-                      for b in body)
+              and any(b.replace('(', '').replace(')', '').startswith(
+                  "ifaction==IDENTREQUEST:action,specifier,data='_ident',None,None"
+                  "elifaction.startswith'_'oraction=='request':raiseProtocolError") for b in body)
               and any(b.replace('"', "'") == "handler=getattr(self,f'handle_{action}',None)" for b in body))
     init = find_func(_disp(), '__init__')
     rl = [n for n in walk_type(init, ast.Assign) if _norm(n) == 'self._lock=threading.RLock()']
@@ -156,10 +157,22 @@ def activate_registers_before_snapshot():
     return 'bool', cbool(ok)
 
 
-def snapshot_takes_no_module_lock():
-    """handle_activate contains no `with` statement (the snapshot is built and sent without Module.updateLock)"""
+def snapshot_under_module_lock():
+    """handle_activate (repair c1c8ab8): the body of the snapshot loop is `moduleobj = ...` followed by ONE
+    `with moduleobj.updateLock:` that contains every make_update / conn.send_reply of the function (the messages of
+    one module are built and sent under the updateLock of that module); no other `with` in the function"""
     f = _method('handle_activate')
-    return 'bool', cbool(not walk_type(f, ast.With))
+    loops = [s for s in _stmts(f) if isinstance(s, ast.For)]
+    ok = len(loops) == 1 and len(loops[0].body) == 2
+    if ok:
+        a, w = loops[0].body
+        ok = (_norm(a) == 'moduleobj=self.secnode.modules.get(modulename,None)' and isinstance(w, ast.With)
+              and len(w.items) == 1 and _norm(w.items[0].context_expr) == 'moduleobj.updateLock'
+              and len(walk_type(f, ast.With)) == 1)
+        sends = [c for c in walk_type(f, ast.Call) if _norm(c.func) in ('conn.send_reply', 'make_update')]
+        inside = [c for c in walk_type(w, ast.Call) if _norm(c.func) in ('conn.send_reply', 'make_update')] if ok else []
+        ok = ok and len(sends) == 4 and len(inside) == 4
+    return 'bool', cbool(ok)
 
 
 def broadcast_takes_no_dispatcher_lock():
@@ -241,7 +254,7 @@ def handler_replies_after_dispatch():
 
 FACTS = [EVENTREPLY, ENABLEEVENTSREPLY, DISABLEEVENTSREPLY, IDENTREQUEST, request_under_dispatcher_lock,
          announce_under_update_lock, announce_update_shape, broadcast_listeners_shape,
-         activate_registers_before_snapshot, snapshot_takes_no_module_lock, broadcast_takes_no_dispatcher_lock,
+         activate_registers_before_snapshot, snapshot_under_module_lock, broadcast_takes_no_dispatcher_lock,
          subscribe_shape, unsubscribe_shape, deactivate_shape, reset_shape, handler_replies_after_dispatch]
 
 FINGERPRINTS = {
